@@ -381,7 +381,7 @@ def run_shard(d):
 
 
 def _walk(d, L):
-    py4hw.Wire.prepared = []
+    core.reset_prepared()
     shape, mode = d['shape'], d['mode']
     min_len = d.get('min_len', 0)
     prefix = d['prefix']
@@ -390,7 +390,7 @@ def _walk(d, L):
     except core.HarnessError:
         raise
     except Exception as e:
-        py4hw.Wire.prepared = []
+        core.reset_prepared()
         return {'constructor_rejected': 1, 'configs': 1, 'evaluations': 0, 'distinct_nontrivial': 0,
                 'vacuous_ok': True, 'distinct_outcomes': 0,
                 'samples': [{'shape': shape, 'entries': SHAPES[shape]['entries'], 'bare': bool(SHAPES[shape].get('bare')),
@@ -479,7 +479,7 @@ def _walk(d, L):
                 raise
             except Exception as e:
                 # the recorder (or the simulator driving it) raised: nothing was recorded for this cycle
-                py4hw.Wire.prepared = []
+                core.reset_prepared()
                 R['evaluations'] += 1
                 report('samples', {'raised': _exc(e), 'where': 'clk' if act[0] != 'clear' else 'clear'})
                 path.pop()
@@ -511,7 +511,7 @@ def replay(v):
     except core.HarnessError:
         raise
     except Exception as e:
-        py4hw.Wire.prepared = []
+        core.reset_prepared()
         return {'shape': d['shape'], 'entries': SHAPES[d['shape']]['entries'], 'trace': v['trace'],
                 'raised': _exc(e), 'violates': True}
     bad, wd = check_node(c, short_too=True)
